@@ -30,11 +30,26 @@ def cases(rng, tier):
     N = 100 if tier == "quick" else 800
     for _ in range(N):
         r0 = rng.random()
-        if r0 < 0.15:
+        if r0 < 0.12:
+            # explicit resets (also trailing ones) and observable lists supported on a single qubit, in particular qubit 0:
+            # a trailing reset in front of a real measurement must stay, one in front of the dummy measurement of an identity group goes
+            p = workflow.gen_problem(rng, max_q=3, max_cuts=1, depth=4, idle_ok=False)
+            nq = p["nq"]
+            for _ in range(rng.randint(1, 3)):
+                p["instrs"].insert(rng.randint(0, len(p["instrs"])), {"name": "reset", "qubits": [rng.randrange(nq)]})
+            for q in rng.sample(range(nq), rng.randint(1, nq)):
+                p["instrs"].append({"name": "reset", "qubits": [q]})
+            sup = rng.choice([0, 0, rng.randrange(nq)])
+            p["obs"] = [{"l": "".join(rng.choice("XYZ") if q == sup else "I" for q in range(nq)), "p": 0} for _ in range(rng.randint(1, 2))]
+            if rng.random() < 0.3:
+                p["obs"].append({"l": "I" * nq, "p": 0})
+            p["form"] = rng.choice(["dict", "single"])
+            p["N"] = rng.choice([None, 5, 50])
+        elif r0 < 0.24:
             p = workflow.gen_chain_problem(rng)
             p["form"] = "dict"
             p["N"] = rng.choice([None, 7, 50, 500])
-        elif r0 < 0.2:
+        elif r0 < 0.29:
             p = workflow.gen_many_cuts(rng)
             p["form"] = "dict"
             p["N"] = rng.choice([20, 60])
@@ -189,6 +204,20 @@ def nontrivial_key(kind, payload):
 
 def oracle(kind, payload):
     """The contract's clauses, recomputed from the returned objects."""
+    why = _oracle_contract(kind, payload)
+    if why is None and payload["N"] is None:
+        # with exact weights the experiments and coefficients must reconstruct the uncut expectation values
+        from . import c01
+        try:
+            why = c01.oracle("roundtrip", {k: v for k, v in payload.items()})
+        except Exception:
+            why = None
+        if why:
+            why = "exact round trip of the generated experiments fails: " + why
+    return why
+
+
+def _oracle_contract(kind, payload):
     try:
         circuits, observables, exps, coeffs, captured = _run(payload)
     except ValueError:
